@@ -302,9 +302,9 @@ func runC03(tier string, seed uint64) int {
 		// the batch line. Whatever a session shares between runs is then asked for by runs that must interpret it differently.
 		nFixed := len(lines)
 		vr := NewRng(mix(bseed, 4141))
-		nVar := 10 // every kind of setting once
+		nVar := nVariantKinds // every kind of setting once
 		if tier == "thorough" {
-			nVar = 20
+			nVar = 2 * nVariantKinds
 		}
 		if err := writeAltParamFolder(filepath.Join(root, "param_alt")); err != nil {
 			fmt.Println("INCONCLUSIVE:", err)
@@ -313,7 +313,7 @@ func runC03(tier string, seed uint64) int {
 		}
 		for v := 0; v < nVar; v++ {
 			k := vr.Intn(nProj)
-			if v%10 == 9 {
+			if v%nVariantKinds == 9 {
 				// the variant with another parameter folder: a project that reads its soil parameters from the texture table
 				for j := 0; j < nProj; j++ {
 					c := scs[(k+j)%nProj]
@@ -701,15 +701,20 @@ func init() {
 	}
 }
 
+const nVariantKinds = 18
+
 // variantTokens: one or two settings for the batch line that differ from the project's configuration file
 func variantTokens(sc *Scenario, r *Rng, v int) []string {
 	var out []string
 	used := map[int]bool{}
 	want := 1 + r.Intn(2)
 	for len(out) < want {
-		c := r.Intn(9)
+		c := r.Intn(nVariantKinds)
+		if c == 9 {
+			c = 0 // the parameter-folder variant only as the leading setting of its own variant line
+		}
 		if len(out) == 0 {
-			c = v % 10 // the v-th variant of a batch starts with setting kind v
+			c = v % nVariantKinds // the v-th variant of a batch starts with setting kind v
 		}
 		if used[c] {
 			continue
@@ -742,6 +747,22 @@ func variantTokens(sc *Scenario, r *Rng, v int) []string {
 		case 9:
 			// the shipped parameter folder with other numbers in the texture tables (see writeAltParamFolder)
 			out = append(out, "parameter=param_alt")
+		case 10:
+			out = append(out, fmt.Sprintf("CorrectionPrecipitation=%d", 1-onoff(sc.PrecipCorr)))
+		case 11:
+			out = append(out, fmt.Sprintf("AnnualAverageTemperature=%.1f", r.Uniform(-2, 18)))
+		case 12:
+			out = append(out, fmt.Sprintf("KcFactorBareSoil=%.2f", r.Uniform(0.2, 1.1)))
+		case 13:
+			out = append(out, fmt.Sprintf("OrganicMatterMineralProportion=%.2f", r.Uniform(0.05, 0.3)))
+		case 14:
+			out = append(out, fmt.Sprintf("PotMineralisation=%d", 1+r.Intn(2)))
+		case 15:
+			out = append(out, fmt.Sprintf("Latitude=%.1f", r.Uniform(-60, 65)))
+		case 16:
+			out = append(out, fmt.Sprintf("CO2StomataInfluence=%d", r.Intn(2)), fmt.Sprintf("CO2concentration=%d", 500+r.Intn(300)))
+		case 17:
+			out = append(out, fmt.Sprintf("Altitude=%d", r.Intn(1500)), fmt.Sprintf("CoastDistance=%d", r.Intn(400)))
 		}
 	}
 	return out
